@@ -366,6 +366,13 @@ theorem range_ar2 (n : Int) (h : 1 < n) :
   congr 2
   omega
 
+/-- `range(1, n)` (the shape `for _ in range(1, exponent)`): as many elements as `range(n - 1)` -/
+theorem rangeFrom_ar2 (n : Int) (h : 1 < n) :
+    pyRangeFrom_ar2 1 ⟨(n : Rat), true⟩ = .ok (List.range' 1 (n.toNat - 1)) := by
+  unfold pyRangeFrom_ar2
+  simp only [if_true]
+  rw [Rat.floor_intCast]
+
 /-- **`DictArithmetic.__ipow__`** (whole function): `ValueError` unless the exponent is an `int` and positive; exponent 1
 returns `self` untouched; otherwise `old = self.copy()` once and `exponent - 1` times `self *= old` (the class's own
 `__imul__`) — is `ArithOps.ipow` (= `Book.ipow Fix.fixed` for an int exponent) -/
@@ -389,16 +396,22 @@ theorem DictArithmetic_ipow_ar2_eq_model (s : Obj) (hg : Good_ar2 s) (hc : ConsO
         simp [toExcept]
       · have hgt : 1 < n := by omega
         have hgt' : ((n : Rat) > 1) := by exact_mod_cast hgt
-        simp only [hgt', h1, if_true, if_false, modelMethods_ar2, ArithOps.copy]
+        -- the shape `if exponent == 1: return self` (instead of `if exponent > 1: …`) tests this
+        have h1' : ¬ ((n : Rat) = 1) := by exact_mod_cast h1
+        simp only [hgt', h1, h1', if_true, if_false, modelMethods_ar2, ArithOps.copy]
         cases hcp : Book.copy Fix.fixed s with
         | mk old eo =>
           cases eo with
           | some er => rfl
           | none =>
-            simp only [toExcept, bind_ok', range_ar2 n hgt, bind_ok_right_ar2]
+            simp only [toExcept, bind_ok', range_ar2 n hgt, rangeFrom_ar2 n hgt, bind_ok_right_ar2]
             have := powLoop_eq_ar2 old (List.range (n.toNat - 1)) s hg hc
             rw [List.length_range] at this
-            first | exact this | (rw [← this]; simp [bind_ok_right_ar2, modelMethods_ar2])
+            -- `for _ in range(1, exponent)`: another list of the same length (the loop variable is not read)
+            have this' := powLoop_eq_ar2 old (List.range' 1 (n.toNat - 1)) s hg hc
+            rw [List.length_range'] at this'
+            first | exact this | (rw [← this]; simp [bind_ok_right_ar2, modelMethods_ar2]; done)
+                  | exact this' | (rw [← this']; simp [bind_ok_right_ar2, modelMethods_ar2])
 
 /-! ## the chain to C05's term-level operators (`Qv/Model/Arith.lean`) -/
 
